@@ -92,7 +92,7 @@ RECURSIVE Expand(_), ExpandItems(_)
 ExpandItems(items) == FlattenSeq([i \in 1..Len(items) |->
     LET s == items[i] IN
     IF "t" \in DOMAIN s /\ s.t = "tfy" THEN
-        CASE s.mode = "list" -> ExpandItems(s.content.items)
+        CASE s.mode \in {"list", "listT"} -> ExpandItems(s.content.items)
           [] s.mode = "tag"  -> << [t |-> "tag", name |-> "x", ws |-> FALSE,
                                     attrs |-> [t |-> "attrs", items |-> <<>>],
                                     kids |-> [t |-> "list", items |-> ExpandItems(s.content.items)]] >>
